@@ -140,6 +140,23 @@ pub fn templates() -> Vec<(String, Module)> {
             vec![],
         );
     }
+    // a table used as a key is changed (its hash with it), collections run, the change is undone
+    t(
+        "key-table-mutated-and-restored",
+        vec![
+            sv("k", C::CreateTable),
+            sv("tt", C::CreateTable),
+            C::SetProperty(b(s("payload of the mutated key")), b(rv("tt")), b(rv("k"))),
+            C::Append(b(int(1)), b(rv("k"))),
+            sg("j", s("junk 1")),
+            sg("j2", C::CreateTable),
+            sink(C::PopTable(b(rv("k")))),
+            sg("j3", s("junk 2")),
+            log2("read", C::GetProperty(b(rv("tt")), b(rv("k")))),
+            log2("tt", C::Len(b(rv("tt")))),
+        ],
+        vec![],
+    );
     // one object as key and as value
     t("same-object-key-and-value", vec![sv("sk", s("key and value")), sv("tt", C::CreateTable), C::SetProperty(b(rv("sk")), b(rv("tt")), b(rv("sk"))), sg("j", s("junk")), log2("tt", rv("tt")), C::SetProperty(b(rv("tt")), b(rv("tt")), b(int(1))), sg("j2", s("junk"))], vec![]);
     // library functions backed by natives, with allocating key functions
